@@ -41,6 +41,8 @@ fn patch_component() -> BoxedStrategy<Vec<u8>> {
         4 => prop::collection::vec(name_byte(), 0..8).prop_map(|v| [b"patch-".to_vec(), v].concat()),
         2 => (prop::collection::vec(prop::sample::select(b"abclinux32".to_vec()), 1..6), prop::collection::vec(name_byte(), 0..6))
             .prop_map(|(w, v)| [b"emul-".to_vec(), w, b"-patch-".to_vec(), v].concat()),
+        1 => (prop::collection::vec(name_byte(), 0..4), prop::collection::vec(name_byte(), 0..6))
+            .prop_map(|(w, v)| [b"emul-".to_vec(), w, b"-patch-".to_vec(), v].concat()),
         // the exceptions (these are distfiles)
         3 => prop::sample::select(vec![
             &b"patch-local-x"[..], b"patch-a.orig", b"patch-a.rej", b"patch-a~", b"patch-2.7.6.tar.xz", b"foo.patch-1", b"emul-x",
@@ -77,6 +79,9 @@ pub fn name() -> BoxedStrategy<Vec<u8>> {
                 2 => joined = splice_first_slash(&joined, b"/./"),
                 3 => joined.insert(0, b'/'),
                 4 => joined.extend_from_slice(b"//"),
+                5 => joined = [b"../".to_vec(), joined].concat(),
+                6 => joined = splice_first_slash(&joined, b"/../"),
+                7 => joined = [b"../../".to_vec(), joined].concat(),
                 _ => {}
             }
             if m::unambiguous(&joined) {
@@ -96,6 +101,7 @@ pub fn hash_token(alg: Alg) -> BoxedStrategy<String> {
     prop_oneof![
         5 => prop::collection::vec(prop::sample::select(b"0123456789abcdef".to_vec()), n..=n).prop_map(|v| String::from_utf8(v).unwrap()),
         1 => prop::sample::select(vec!["ojnk", "0", "=", "é", "(x)", "DEADBEEF", "#"]).prop_map(String::from),
+        1 => crate::engine::dict::string_token(|c| !c.is_whitespace(), "x"),
     ]
     .boxed()
 }
